@@ -70,6 +70,19 @@ def gen_dir(rng, scratch: str):
         n = "sub%d" % i
         t.file("d/%s/x.txt" % n, "x\n")
         items[n] = {"kind": "dir", "ea": {}}
+    # files with an encoding suffix: sent as the bytes they are (no decompressor is configured), and described so
+    for i, suffix in enumerate(rng.sample([".txt.gz", ".tar.gz", ".txt.bz2", ".tgz", ".ps.Z", ".gif.gz"], rng.randrange(0, 3))):
+        n = "packed%d%s" % (i, suffix)
+        data = (trees.bz if suffix.endswith("bz2") else trees.gz)(trees.gen_content(rng, rng.choice([10, 3000, 20000]), "text"))
+        t.file("d/" + n, data)
+        items[n] = {"kind": "file", "size": len(data), "mime": "application/octet-stream", "data": data, "ea": {}}
+    # a menu kept in a file (*.gophermap): what is sent is the menu rendered from it, whose length is not the file's
+    if rng.random() < 0.5:
+        n = "menu%d.gophermap" % rng.randrange(9)
+        lines = ["Welcome to the map file"] + ["0Entry number %d with a fairly long description\t/d/%s" % (k, rng.choice(sorted(items)))
+                                               for k in range(rng.choice([3, 40, 120]))]
+        t.file("d/" + n, "\n".join(lines) + "\n")
+        items[n] = {"kind": "mapfile", "ea": {}}
     for n, it in items.items():
         for ext, block in EAEXTS:
             if rng.random() < 0.45:
@@ -157,9 +170,12 @@ def check_item_blocks(chk: Check, name: str, it: typing.Optional[dict], blocks, 
         if size != it["size"] // 1024:
             chk.witness("C15/views-size", dict(sample, item=name, advertised_k=size, file_size=it["size"]))
             return False
-    elif it["kind"] == "dir":
+    elif it["kind"] in ("dir", "mapfile"):
         if mime not in ("application/gopher-menu", "application/gopher+-menu"):
             chk.witness("C15/views-mime:directory", dict(sample, item=name, advertised=mime))
+            return False
+        if it["kind"] == "mapfile" and size is not None and it.get("rendered_len") is not None and size != it["rendered_len"] // 1024:
+            chk.witness("C15/views-size:generated-menu", dict(sample, item=name, advertised_k=size, rendered_bytes=it["rendered_len"]))
             return False
     want = [b for _, b in EAEXTS if b in it["ea"]]
     extra = names[3:]
@@ -225,6 +241,22 @@ def run_case(chk: Check, sc: Scratch, idx: int) -> None:
                        for it in items.values() if "unreadable" in it})
     shim.install()
     try:
+        for nm, it in items.items():
+            if it["kind"] != "mapfile":
+                continue
+            req, _ = reqs.render("gopherp+", b"/d/" + nm.encode())
+            r = site.request(req)
+            try:
+                d = parsers.parse_gopherplus(r.data)
+            except parsers.Malformed as e:
+                chk.witness("C15/document-length-prefix:generated-menu", {"item": nm, "reply": r.data[:80], "error": str(e)})
+                return
+            if d["length"] not in (-2, -1, len(d["body"])):
+                chk.witness("C15/document-length-prefix:generated-menu", {"item": nm, "length": d["length"], "body": len(d["body"]),
+                                                                          "file_size": len(t.nodes[b"d/" + nm.encode()]["data"])})
+                return
+            it["rendered_len"] = len(d["body"])
+            chk.count("generated_menus_fetched_with_a_length_prefix")
         req, _ = reqs.render("gopher", b"/d")
         plain = site.request(req)
         plain_lines = plain.data[:-2].split(b"\r\n") if plain.data else []
